@@ -129,7 +129,13 @@ bool TcpAcceptor::stop()
 
 void TcpAcceptor::cleanup()
 {
-    CHECK_DELETE_RESET_OBJ(sp_read_ev_);
+    //! cleanup() may be called from the new-connection callback, i.e. from inside this event
+    if (sp_read_ev_ != nullptr) {
+        sp_read_ev_->disable();
+        event::FdEvent *tmp = nullptr;
+        std::swap(tmp, sp_read_ev_);
+        wp_loop_->runNext([tmp] { CHECK_DELETE_OBJ(tmp); }, "TcpAcceptor::cleanup, delete tmp");
+    }
     sock_fd_.close();
 
     //! 对于Unix Domain的Socket在退出的时候要删除对应的socket文件
